@@ -709,6 +709,14 @@ func runCase(c Case) *vt.Outcome {
 			}
 			continue
 		}
+		// double crash (thorough tier, short histories): crash again at sampled steps of a follow-up load on a copy of
+		// the recovered store; the lake must again be readable with all-or-nothing effect and usable afterwards
+		if vt.Thorough() && len(c.Prefix) <= 8 && c.Victim.Kind != "init" && c.Victim.Kind != "droppool" {
+			if f := doubleCrash(ctx, &c, o, store, mode, st, k); f != nil {
+				o.Fail = f
+				return o
+			}
+		}
 		if err := followUp(ctx, cold, st, c.Victim); err != nil {
 			if f := report("followup-failed", "state is consistent (%s) but the follow-up workload fails: %v", map[bool]string{true: "after", false: "before"}[isAfter], err); f != nil {
 				o.Fail = f
@@ -719,6 +727,92 @@ func runCase(c Case) *vt.Outcome {
 	}
 	o.Sample = map[string]any{"mode": mode.String(), "victim": c.Victim, "prefix_ops": len(c.Prefix), "crash_points": T, "first_write_step": firstWrite}
 	return o
+}
+
+// doubleCrash crashes a second operation (a load into the first pool that exists) on a copy of the once-recovered store.
+func doubleCrash(ctx context.Context, c *Case, o *vt.Outcome, recovered *memstore.Store, mode memstore.Mode, st state, firstK int) *vt.Failure {
+	name := ""
+	for _, cand := range []string{"p", "r", "q", "n"} {
+		if _, ok := st[cand]; ok {
+			name = cand
+			break
+		}
+	}
+	if name == "" {
+		return nil
+	}
+	second := resolved{op: Op{Kind: "load", Pool: name, Branch: "main", Batch: 0}}
+	run2 := func(store *memstore.Store, hook memstore.Hook) error {
+		h, err := lakeh.Open(ctx, store, mode, nil)
+		if err != nil {
+			return err
+		}
+		h.Engine.Hook = hook
+		return apply(ctx, h, c, second)
+	}
+	dry := recovered.Clone()
+	counter := &memstore.Counter{}
+	if err := run2(dry, counter); err != nil {
+		return nil // the plain follow-up reports this
+	}
+	after2, _, _, oe := observe(ctx, dry, mode)
+	if oe != nil {
+		return nil
+	}
+	T2 := counter.Len()
+	for _, j := range []int{T2 / 4, T2 / 2, 3 * T2 / 4, T2 - 1, T2} {
+		if j < 1 {
+			continue
+		}
+		store := recovered.Clone()
+		crash := &memstore.CrashAt{K: j}
+		done := make(chan error, 1)
+		go func() { done <- run2(store, crash) }()
+		select {
+		case <-done:
+		case <-time.After(20 * time.Second):
+		}
+		fired := crash.HasFired()
+		if fired == nil {
+			continue
+		}
+		o.Evals++
+		cls, ph := fired.Class, phase(fired.Kind)
+		o.Units = append(o.Units, fmt.Sprintf("double/%s/%s/%s", mode, cls, ph))
+		report := func(symptom, format string, args ...any) *vt.Failure {
+			sig := fmt.Sprintf("C17/%s/%s/%s/%s", mode, cls, ph, symptom)
+			if vt.IsKnown(sig) {
+				o.Known = append(o.Known, sig)
+				return nil
+			}
+			return fail(sig, "double crash: after recovering from a crash at step %d of %q, a load crashed before its step %d of %d (%s %s); %s", firstK, c.Victim.String(), j, T2, fired.Kind, cls, fmt.Sprintf(format, args...))
+		}
+		st2, cold2, exists, oe := observe(ctx, store, mode)
+		if !exists {
+			if f := report("lake-gone", "the lake no longer exists"); f != nil {
+				return f
+			}
+			continue
+		}
+		if oe != nil {
+			if f := report(oe.symptom, "after reopening: %v", oe); f != nil {
+				return f
+			}
+			continue
+		}
+		if s := st2.String(); s != st.String() && s != after2.String() {
+			if f := report("state-not-atomic", "recovered state is neither before nor after the second operation:\n  got:    %s\n  before: %s\n  after:  %s", s, st.String(), after2.String()); f != nil {
+				return f
+			}
+			continue
+		}
+		if err := followUp(ctx, cold2, st2, second.op); err != nil {
+			if f := report("followup-failed", "the follow-up workload fails: %v", err); f != nil {
+				return f
+			}
+		}
+	}
+	return nil
 }
 
 var prop = &vt.Prop[Case]{
